@@ -1175,13 +1175,12 @@ class RouterSessionManager(SessionManager):
 
             if use_route_table:
                 route = self.node.route_table.find_best_route(dst_ip_address)
-                if not route:
-                    raise Exception("cannot use route to resolve outbound details")
-
-                dst_mac_address = self.software_manager.arp.get_arp_cache_mac_address(route.next_hop_ip_address)
-                outbound_network_interface = self.software_manager.arp.get_arp_cache_network_interface(
-                    route.next_hop_ip_address
-                )
+                if route:
+                    dst_mac_address = self.software_manager.arp.get_arp_cache_mac_address(route.next_hop_ip_address)
+                    outbound_network_interface = self.software_manager.arp.get_arp_cache_network_interface(
+                        route.next_hop_ip_address
+                    )
+                # without a route the details stay unresolved and the caller drops the payload
         return outbound_network_interface, dst_mac_address, dst_ip_address, src_port, dst_port, protocol, is_broadcast
 
 
